@@ -81,6 +81,14 @@ pub struct Style {
     /// sites that redundantly declare their namespace again (`xmlns="..."`, or `xmlns:p="..."` if
     /// the element is written with prefix p)
     pub redeclare_ns: Vec<usize>,
+    /// sites (leaves with text) whose text is followed by a comment inside the element:
+    /// `<error-type>rpc<!-- note --></error-type>`
+    pub comment_in_text: Vec<usize>,
+    /// sites (leaves) written with a prefix of their own that also carry a declaration nobody uses,
+    /// rebinding what the *following siblings* are written with (the default namespace, or the
+    /// document-wide prefix): `<e5:error-type xmlns:e5="..." xmlns="urn:example:unused">`. The
+    /// declaration ends with the element; it changes nothing for any other element.
+    pub unused_decl: Vec<usize>,
 }
 
 struct W<'a> {
@@ -101,7 +109,7 @@ impl W<'_> {
         let mut default_ns = parent_default_ns.to_string();
         let newly_declared_start = declared.len();
         let qname = match prefix_of(self.st, n.ns) {
-            _ if self.st.local_prefix.contains(&site) && !n.ns.is_empty() => {
+            _ if (self.st.local_prefix.contains(&site) || self.st.unused_decl.contains(&site)) && !n.ns.is_empty() => {
                 // children keep using what is in scope for them: the default namespace in force
                 // (unchanged) or the document-wide prefix (declared where first needed)
                 decls.push((format!("xmlns:e{site}"), n.ns));
@@ -122,7 +130,7 @@ impl W<'_> {
                 n.name.clone()
             }
         };
-        if self.st.redeclare_ns.contains(&site) && !n.ns.is_empty() && !self.st.local_prefix.contains(&site) {
+        if self.st.redeclare_ns.contains(&site) && !n.ns.is_empty() && !self.st.local_prefix.contains(&site) && !self.st.unused_decl.contains(&site) {
             let attr = match prefix_of(self.st, n.ns) {
                 Some(p) => format!("xmlns:{p}"),
                 None => "xmlns".to_string(),
@@ -130,6 +138,13 @@ impl W<'_> {
             if !decls.iter().any(|(k, _)| *k == attr) {
                 decls.push((attr, n.ns));
             }
+        }
+        let mut unused: Option<String> = None;
+        if self.st.unused_decl.contains(&site) && !n.ns.is_empty() && n.kids.is_empty() && n.attrs.iter().all(|(ns, _, _)| ns.is_empty()) {
+            unused = Some(match prefix_of(self.st, n.ns) {
+                Some(p) => format!("xmlns:{p}"),
+                None => "xmlns".to_string(),
+            });
         }
         // attribute namespaces always need a prefix
         let mut attrs: Vec<(String, String)> = Vec::new();
@@ -150,6 +165,9 @@ impl W<'_> {
             }
         }
         let mut all: Vec<(String, String)> = decls.iter().map(|(k, v)| (k.clone(), (*v).to_string())).collect();
+        if let Some(u) = unused {
+            all.push((u, "urn:example:unused".to_string()));
+        }
         all.extend(attrs);
         if self.st.reverse_attrs.contains(&site) {
             all.reverse();
@@ -187,6 +205,9 @@ impl W<'_> {
                 self.out.push_str(&escape_text(t));
                 if pad {
                     self.out.push_str("  \n");
+                }
+                if self.st.comment_in_text.contains(&site) {
+                    self.out.push_str("<!-- note -->");
                 }
             }
             for (i, k) in n.kids.iter().enumerate() {
